@@ -160,6 +160,9 @@ type Explorer struct {
 	seen            map[string]struct{}
 }
 
+// progressHook is set by a worker to its heartbeat (rate-limited there).
+var progressHook func()
+
 // Explore runs body once per execution. body must be deterministic given the chooser.
 func (e *Explorer) Explore(body func(ch *Chooser)) {
 	stack := [][]int{{}}
@@ -185,6 +188,9 @@ func (e *Explorer) Explore(body func(ch *Chooser)) {
 			}
 		}
 		e.Executions++
+		if progressHook != nil {
+			progressHook() // a case that explores many executions still shows the coordinator that the worker is alive
+		}
 		e.PointsSeen += int64(len(ch.Points))
 		if len(ch.Points) > e.MaxDepth {
 			e.MaxDepth = len(ch.Points)
